@@ -3,6 +3,10 @@ package props
 import (
 	"testing"
 
+	"pgregory.net/rapid"
+
+	"verif/harness/world"
+
 	"verif/harness/gen"
 	"verif/harness/oracle"
 )
@@ -10,6 +14,9 @@ import (
 func init() {
 	for _, c := range []Check{
 		{Prop: "C02", Gen: gen.C02, Mon: oracle.C02},
+		{Prop: "C03", Gen: gen.C03, Mon: oracle.C03},
+		{Prop: "C04", Gen: gen.C04, Mon: oracle.C04},
+		{Prop: "C19", Gen: func(t *rapid.T) *world.Scenario { return gen.C19(t, envInt("VERIF_C19_N", 25)) }, Mon: oracle.C19},
 		{Prop: "C06", Gen: gen.C06, Mon: oracle.C06},
 		{Prop: "C07", Gen: gen.C07, Mon: oracle.C07},
 		{Prop: "C08", Gen: gen.C08, Mon: oracle.C08},
@@ -24,6 +31,9 @@ func init() {
 }
 
 func TestC02(t *testing.T) { RunCheck(t, checks["C02"]) }
+func TestC03(t *testing.T) { RunCheck(t, checks["C03"]) }
+func TestC04(t *testing.T) { RunCheck(t, checks["C04"]) }
+func TestC19(t *testing.T) { RunCheck(t, checks["C19"]) }
 func TestC06(t *testing.T) { RunCheck(t, checks["C06"]) }
 func TestC07(t *testing.T) { RunCheck(t, checks["C07"]) }
 func TestC08(t *testing.T) { RunCheck(t, checks["C08"]) }
